@@ -108,7 +108,11 @@ def targeted_families(schema):
                       ("list default", ("l", "[Int!]", "[1, 2]")), ("enum default", ("r", "Role", "ADMIN")),
                       ("input object default", ("rg", "Range", "{from: 1}")),
                       ("nested input object default", ("f", "Filter", '{text: "x", range: {from: 1}}')),
-                      ("non-null Int default", ("n", "Int!", "3")), ("ID default", ("id", "ID", '"x"'))]:
+                      ("non-null Int default", ("n", "Int!", "3")), ("ID default", ("id", "ID", '"x"')),
+                      # list defaults at every nullability of list and elements, nested lists, custom scalars, an empty list
+                      ("list-of-nullable default", ("ln", "[Int]", "[1, 2]")), ("non-null-list-of-nullable default", ("lnn", "[String]!", '["a"]')),
+                      ("nested-list default", ("ll", "[[Int!]]", "[[1], [2, 3]]")), ("nested-nullable-list default", ("lln", "[[ID]!]!", '[["x"]]')),
+                      ("custom-scalar-list default", ("ld", "[Date]", '["2020-01-01"]')), ("empty-list default", ("le", "[Boolean!]!", "[]"))]:
         out.append(("variable default: " + desc, Doc([Op("query", "Op", [Field("version")], [var])]), {"variable_default:" + desc.split()[0]}))
     sel = [Field("user", [Field("friend", [TN(), Field("id")])], args=[("id", '"1"')]), Field("userFriend", [Field("name")])]
     out.append(("same type name by two paths", Doc([Op("query", "Op", sel)]), None))
